@@ -11,7 +11,7 @@ for d in seeded/${1:-}*/; do
   if ! git -C /repo apply --check /verif/$d/patch.diff 2>/dev/null; then
     if git -C /repo apply --3way /verif/$d/patch.diff >/dev/null 2>&1; then git -C /repo reset -q; else
       echo "$n: patch no longer applies to /repo HEAD $(git -C /repo rev-parse --short HEAD) (it was confirmed and detected at the HEAD recorded in its meta.json)" | tee -a $OUT
-      git -C /repo checkout -q -- . ; continue
+      git -C /repo reset -q --hard HEAD; continue
     fi
   else
     git -C /repo apply /verif/$d/patch.diff
